@@ -183,11 +183,17 @@ class Context(Collector):
 
 
 def load_known():
-    try:
-        with open(KNOWN) as f:
-            return json.load(f)
-    except FileNotFoundError:
-        return {"open": [], "fixed": []}
+    out = {"open": [], "fixed": []}
+    import glob
+    for path in [KNOWN] + sorted(glob.glob(os.path.join(VERIF, "known_findings.d", "*.json"))):
+        try:
+            with open(path) as f:
+                d = json.load(f)
+        except FileNotFoundError:
+            continue
+        out["open"] += d.get("open", [])
+        out["fixed"] += d.get("fixed", [])
+    return out
 
 
 def finish(ctx: Context, module) -> int:
